@@ -66,7 +66,7 @@ def gen_cases(tier, seed):
                                 add([m], [n], mode, st, batch=[2], mc=[ci, co])
     st2 = [None] + [list(s) for s in itertools.product((1, 2, 3), repeat=2)]
     if not T:
-        st2 = [None, [1, 2], [2, 1], [2, 2], [3, 2]]
+        st2 = [None, [1, 2], [2, 1], [2, 2], [3, 2], [1, 3], [3, 3]]
     for m in itertools.product((1, 2, 3), repeat=2):
         for n in itertools.product((1, 2, 3), repeat=2):
             for mode in ("full", "valid"):
@@ -83,7 +83,7 @@ def gen_cases(tier, seed):
             add(m, n, mode, None, batch=[2])
     st3 = [None] + [list(s) for s in itertools.product((1, 2), repeat=3)]
     if not T:
-        st3 = [None, [2, 1, 2], [1, 2, 1]]
+        st3 = [None, [2, 1, 2], [1, 2, 1], [2, 2, 2], [1, 1, 2]]
     for m in itertools.product((1, 2), repeat=3):
         for n in itertools.product((1, 2), repeat=3):
             for mode in ("full", "valid"):
